@@ -111,6 +111,21 @@ Theorem C20_in_place : forall cwd home fs filename content bodies,
 Proof. exact refines_now. Qed.
 Print Assumptions C20_in_place.
 
+(* the same for a cart whose last code line has no final newline (a .p8 file ending inside its code) *)
+Theorem C20_in_place_unterminated_last : forall cwd home fs filename content init last,
+  fs_agrees cwd home fs filename content ->
+  Forall no_nl init -> no_nl last -> last <> [] ->
+  let hs := map (fun b => b ++ [10]) init ++ [last] in
+  let impl := model_outcome (process_includes_now cwd home fs filename hs) in
+  text_lines (concat hs) = init ++ [last] /\
+  match ref_splice content (init ++ [last]) with
+  | SpOk ls => exists t, impl = Some t /\ text_lines t = ls
+  | SpMissing => impl = None
+  | SpUndefined => True
+  end.
+Proof. exact refines_last_now. Qed.
+Print Assumptions C20_in_place_unterminated_last.
+
 (* ... hence the instance predicate the monitor evaluates on the implementation holds of the model *)
 Theorem C20_model_holds : forall cwd home fs filename files bodies,
   fs_agrees cwd home fs filename (lookup_content files) ->
